@@ -22,7 +22,7 @@ PREFIXES = ['C13.']
 def run_tv(ctx, n_tables, n_2d, max_len=800):
     rng = np.random.default_rng(ctx.seed + 13)
     recs, metas = [], []
-    for c, df in tt.analysis_tables(ctx, n_tables, 131, max_len=max_len):
+    for c, df in tt.analysis_tables(ctx, n_tables, 131, max_len=max_len, large=(1, 1) if n_tables < 100 else (4, 4)):
         n = len(c['sig'])
         nxt = df[tt.roles_of(df)[5]].values
         for L in {int(rng.integers(20, max(21, n // 2))), int(nxt[int(rng.integers(0, len(nxt)))]), int(nxt[-1]), max(1, int(nxt[0]) // 2)}:
